@@ -376,6 +376,38 @@ def run(ctx: Ctx) -> RuleResult:
         res.finding(grw, parsed[0] if parsed else grw.node, 'get_regexp_width measures %s but compiles %s: with Unicode categories (regex module) '
                     'the width is wrong, and width is the second precedence key' % (
                         norm(parsed[0].args[0]) if parsed else '?', [norm(c.args[0]) for c in compiled]), construct='width-expr')
+    # ---- %ignore: each statement ignores one name ----------------------------------------------------------------------------
+    # (a terminal given by name is ignored under that name and nothing is defined; anything else gets one fresh __IGNORE_n definition)
+    from ..exprs import path_counts
+    ig = repo.func('lark.load_grammar:GrammarBuilder._ignore')
+    isn = ig.self_name() or 'self'
+    cs = path_counts(ig.node.body, lambda x: isinstance(x, ast.Call) and norm(x.func) == '%s._ignore_names.append' % isn)
+    ok = cs == {1}
+    res.ob('%s %s' % (ig.loc(), ig.qual), 'every path through _ignore records exactly one ignored name', ok)
+    if not ok:
+        res.finding(ig, ig.node, '_ignore records %s names on some path: a terminal ignored by name is ignored a second time under a fresh '
+                    '__IGNORE_n definition with the same pattern (two terminals with one pattern: the collision check and the precedence order '
+                    'see a terminal the grammar does not have), or nothing is ignored' % sorted(cs), construct='ignore-once')
+    # ---- the configured regexp module ----------------------------------------------------------------------------------------
+    # a function that is handed the regexp module to use (self.re / conf.re_module / a parameter) does not reach for the global `re`
+    n_cfg = 0
+    for f in repo.functions.values():
+        if not f.module.name.startswith('lark') or f.module.name.startswith('lark.tools'):
+            continue
+        conf = [n for n in f.body_nodes() if isinstance(n, ast.Attribute) and n.attr in ('re', 're_module') and isinstance(n.ctx, ast.Load)] + \
+               [p for p in f.param_names() if p in ('re_', 're_module')]
+        if not conf:
+            continue
+        n_cfg += 1
+        uses = [n for n in f.body_nodes() if isinstance(n, ast.Name) and n.id == 're' and isinstance(n.ctx, ast.Load)]
+        okf = not uses
+        res.ob('%s %s' % (f.loc(), f.qual), 'uses the configured regexp module only, not the global `re`', okf)
+        if not okf:
+            st_ = enclosing_stmt(uses[0])
+            res.finding(f, st_, 'this function is handed the regexp module to use (%s) but reaches for the global `re` in `%s`: with regex=True '
+                        'part of the lexer is built with the other module (patterns only `regex` understands fail or match differently)'
+                        % (norm(conf[0]) if not isinstance(conf[0], str) else conf[0], norm(st_)[:90]), construct='configured-re-module')
+    res.require_instances(n_cfg, 5, 'functions with a configured regexp module')
     return res
 
 
